@@ -152,16 +152,23 @@ func (app *Application) disburseFeesVQ(
 	if err = denom.Add(&consensusParameters.FeeSplitWeightNextPropose); err != nil {
 		return fmt.Errorf("add FeeSplitWeightNextPropose: %w", err)
 	}
-	shareNextProposer := perValidator.Clone()
-	if err = shareNextProposer.Mul(&consensusParameters.FeeSplitWeightNextPropose); err != nil {
-		return fmt.Errorf("multiply shareNextProposer: %w", err)
-	}
-	if err = shareNextProposer.Quo(denom); err != nil {
-		return fmt.Errorf("divide shareNextProposer: %w", err)
-	}
-	shareVote := perValidator.Clone()
-	if err = shareVote.Sub(shareNextProposer); err != nil {
-		return fmt.Errorf("subtract shareVote: %w", err)
+	// NOTE: Both weights can be zero when the fee split has been changed (e.g. by governance) after
+	//       the fees were persisted. In this case nobody is entitled to a share and everything goes
+	//       to the common pool below.
+	shareNextProposer := quantity.NewQuantity()
+	shareVote := quantity.NewQuantity()
+	if !denom.IsZero() {
+		shareNextProposer = perValidator.Clone()
+		if err = shareNextProposer.Mul(&consensusParameters.FeeSplitWeightNextPropose); err != nil {
+			return fmt.Errorf("multiply shareNextProposer: %w", err)
+		}
+		if err = shareNextProposer.Quo(denom); err != nil {
+			return fmt.Errorf("divide shareNextProposer: %w", err)
+		}
+		shareVote = perValidator.Clone()
+		if err = shareVote.Sub(shareNextProposer); err != nil {
+			return fmt.Errorf("subtract shareVote: %w", err)
+		}
 	}
 
 	// Multiply to get the next proposer's total payment.
